@@ -11,8 +11,8 @@ from harness import zones as Z
 
 ID = "C16"
 BACKENDS = ("py", "rs")          # Date.add / DateTime.add run through helpers.add_duration (is_leap of the backend)
-GEN_MODULES = ()
-MIN_THEOREMS = 30
+GEN_MODULES = ("WeekNav", "StartOf")
+MIN_THEOREMS = 38
 US = D.US
 DAY = 86400 * US
 EPOCH_ORD = 719163
